@@ -32,6 +32,23 @@ class T2Sim(object):
         self.pending_sector = False
         self.ncmd = 0
         self.sdd = bytes(sdd)
+        self.lose_at = None
+        self.lose_left = 0
+
+    def lose(self, k, attempts=3):
+        """the state-changing command that would be number k (0-based, counted from now) is lost:
+        it and its retransmissions (`attempts` in all) time out and nothing is stored; the tag
+        stays in the field"""
+        self.writes = []
+        self.lose_at, self.lose_left = k, attempts
+
+    def _lost(self):
+        if self.lose_at is not None and len(self.writes) == self.lose_at:
+            self.lose_left -= 1
+            if self.lose_left <= 0:
+                self.lose_at = None
+            return True
+        return False
 
     def target(self):
         return nfc.clf.RemoteTarget("106A", sens_res=bytearray(b"\x44\x00"), sel_res=bytearray(b"\x00"),
@@ -76,6 +93,8 @@ class T2Sim(object):
             a = self.sector * 1024 + data[1] * 4
             if a >= len(self.mem):
                 return bytearray([0x00])
+            if self._lost():
+                raise nfc.clf.TimeoutError("command lost")
             self.mem[a:a + 4] = data[2:6]
             self.writes.append((a, bytes(data[2:6])))
             return bytearray([0x0A])
@@ -100,6 +119,11 @@ class T1Sim(object):
         self.dead = False
         self.ncmd = 0
         self.uid = bytes(uid)
+        self.lose_at = None
+        self.lose_left = 0
+
+    lose = T2Sim.lose
+    _lost = T2Sim._lost
 
     @property
     def UNIT(self):
@@ -123,6 +147,8 @@ class T1Sim(object):
         return None if self.dead else (targets[0] if targets else self.target())
 
     def _w(self, addr, data, erase):
+        if self._lost():
+            raise nfc.clf.TimeoutError("command lost")
         if not erase:
             data = bytes(a | b for a, b in zip(self.mem[addr:addr + len(data)], data))
         self.mem[addr:addr + len(data)] = data
